@@ -1163,5 +1163,189 @@ theorem put_new_cursors [DecidableEq K] (st : StrictTotal gt) (d : Db K V) (k : 
           refine ⟨_, cursVia_mapCurs _ _ _, fun p hp => ?_⟩
           exact fixAdd_rel hidx hx hall p hp
 
+/-! ### scans from an arbitrary position -/
+
+/-- repeated NEXT from any usable position returns exactly `aheadN`, in order, each record once, and
+    then reports not-found -/
+theorem scan_from_next (d : Db K V) (hok : NodesOk d.nodes) (fuel : Nat) :
+    ∀ p, CurOk d.nodes p → (aheadN d.nodes p).length < fuel →
+      scan d (curNext d) fuel p = ((aheadN d.nodes p).map some, true) := by
+  induction fuel with
+  | zero => intro p _ h; omega
+  | succ fuel ih =>
+    intro p hp hf
+    have hs := next_step d hok p hp
+    simp only [scan]
+    cases hb : (curNext d p).2 with
+    | true =>
+      obtain ⟨r, hr, ha, hc⟩ := hs.1 hb
+      rw [ha] at hf ⊢
+      simp only [List.length_cons] at hf
+      simp only [if_true, hr, ih _ hc (by omega), List.map_cons]
+    | false =>
+      rw [hs.2 hb]; simp
+
+/-- repeated PREV returns `aheadP` from the back -/
+theorem scan_from_prev (d : Db K V) (hok : NodesOk d.nodes) (fuel : Nat) :
+    ∀ p, CurOk d.nodes p → (aheadP d.nodes p).length < fuel →
+      scan d (curPrev d) fuel p = ((aheadP d.nodes p).reverse.map some, true) := by
+  induction fuel with
+  | zero => intro p _ h; omega
+  | succ fuel ih =>
+    intro p hp hf
+    have hs := prev_step d hok p hp
+    simp only [scan]
+    cases hb : (curPrev d p).2 with
+    | true =>
+      obtain ⟨r, hr, ha, hc⟩ := hs.1 hb
+      rw [ha] at hf ⊢
+      simp only [List.length_append, List.length_cons, List.length_nil] at hf
+      simp only [if_true, hr, ih _ hc (by omega), List.reverse_append, List.reverse_cons, List.reverse_nil,
+        List.nil_append, List.cons_append, List.map_cons]
+    | false =>
+      rw [hs.2 hb]; simp
+
+theorem aheadN_desc {ns : List (Node K V)} (hd : Desc gt (flatten ns)) (p : CPos) : Desc gt (aheadN ns p) :=
+  List.Pairwise.sublist (aheadN_sublist ns p) hd
+
+theorem aheadP_desc {ns : List (Node K V)} (hd : Desc gt (flatten ns)) (p : CPos) : Desc gt (aheadP ns p) :=
+  List.Pairwise.sublist (aheadP_sublist ns p) hd
+
+/-! ### overwriting a value: positions do not move -/
+
+theorem offs_eq_sum (ns : List (Node K V)) (i : Nat) : offs ns i = (((ns.map (·.recs.length))).take i).sum := by
+  induction ns generalizing i with
+  | nil => simp
+  | cons n ns ih =>
+    cases i with
+    | zero => simp
+    | succ i => simp [ih]
+
+/-- `flatIdx` as a sum of node sizes -/
+theorem flatIdx_eq_sum (ns : List (Node K V)) (i j : Nat) :
+    flatIdx ns i j = ((ns.take i).map (·.recs.length)).sum + j := by
+  rw [flatIdx, offs_eq_sum, List.map_take]
+
+/-- two chains with the same node sizes have the same usable positions and flat indices -/
+theorem shape_eq {ns ns' : List (Node K V)} (h : ns'.map (·.recs.length) = ns.map (·.recs.length)) :
+    (∀ i, offs ns' i = offs ns i) ∧ (∀ p, CurOk ns p → CurOk ns' p) := by
+  refine ⟨fun i => by rw [offs_eq_sum, offs_eq_sum, h], fun p hp => ?_⟩
+  cases p with
+  | head => trivial
+  | tail => trivial
+  | void => trivial
+  | «at» i j s =>
+    obtain ⟨nd, hn, hj⟩ := hp
+    have h1 : (ns.map (·.recs.length))[i]? = some nd.recs.length := by simp [hn]
+    rw [← h, List.getElem?_map] at h1
+    cases hn' : ns'[i]? with
+    | none => simp [hn'] at h1
+    | some nd' =>
+      simp only [hn', Option.map_some, Option.some.injEq] at h1
+      exact ⟨nd', hn', by omega⟩
+
+/-- same shape, records mapped through `f`: positions stay usable and see the mapped records -/
+theorem map_rel {ns ns' : List (Node K V)} {f : K × V → K × V}
+    (hs : ns'.map (·.recs.length) = ns.map (·.recs.length)) (hf : flatten ns' = (flatten ns).map f)
+    (p : CPos) (hp : CurOk ns p) :
+    CurOk ns' p ∧ aheadN ns' p = (aheadN ns p).map f ∧ aheadP ns' p = (aheadP ns p).map f := by
+  have hsh := shape_eq hs
+  refine ⟨hsh.2 p hp, ?_, ?_⟩
+  · cases p with
+    | head => exact hf
+    | tail => rfl
+    | void => rfl
+    | «at» i j s =>
+      simp only [aheadN, flatIdx, hsh.1, hf]
+      split <;> simp only [List.map_drop]
+  · cases p with
+    | head => rfl
+    | tail => exact hf
+    | void => rfl
+    | «at» i j s =>
+      simp only [aheadP, flatIdx, hsh.1, hf]
+      split <;> simp only [List.map_take]
+
+/-- the record with key `k` gets value `v`, every other record is kept -/
+def setVal [DecidableEq K] (k : K) (v : V) (r : K × V) : K × V := if r.1 = k then (k, v) else r
+
+theorem map_setVal_id [DecidableEq K] {k : K} {v : V} {l : List (K × V)} (h : ∀ r ∈ l, keyNe k r = true) :
+    l.map (setVal k v) = l := by
+  induction l with
+  | nil => rfl
+  | cons x tl ih =>
+    have hx := keyNe_true.1 (h x (List.mem_cons_self ..))
+    rw [List.map_cons, ih (fun r hr => h r (List.mem_cons_of_mem _ hr))]
+    simp only [setVal, hx, if_false]
+
+/-- on a descending list holding `k`, `specPut` only rewrites the value of `k` -/
+theorem specPut_eq_map_setVal [DecidableEq K] (st : StrictTotal gt) {m : List (K × V)} (hd : Desc gt m) {k : K} {av : V}
+    (hm : (k, av) ∈ m) (v : V) : specPut gt m k v = m.map (setVal k v) := by
+  obtain ⟨l1, l2, rfl, h1, h2 | ⟨av', rest, rfl, h2⟩⟩ := desc_split st k hd
+  · exfalso
+    rcases List.mem_append.1 hm with h | h
+    · exact st.ne_of_gt (h1 _ h) rfl
+    · exact st.ne_of_gt (h2 _ h) rfl
+  · rw [specPut_present st v av' rest h1]
+    have hne := keyNe_around st hd
+    rw [List.map_append, List.map_cons,
+      map_setVal_id (fun r hr => hne r (List.mem_append_left _ hr)),
+      map_setVal_id (fun r hr => hne r (List.mem_append_right _ hr))]
+    simp [setVal]
+
+/-- `put` (overwrite allowed) of a key the store holds: no cursor moves, only that key's value changes -/
+theorem put_overwrite_cursors [DecidableEq K] (st : StrictTotal gt) (d : Db K V) (inv : NodeInv gt d.nodes) (k : K) (v : V)
+    (lvl : Nat) {av : V} (hm : (k, av) ∈ flatten d.nodes) :
+    (put gt d k v false lvl).1.curs = d.curs ∧
+    ∀ p, CurOk d.nodes p → CurOk (put gt d k v false lvl).1.nodes p ∧
+      aheadN (put gt d k v false lvl).1.nodes p = (aheadN d.nodes p).map (setVal k v) ∧
+      aheadP (put gt d k v false lvl).1.nodes p = (aheadP d.nodes p).map (setVal k v) := by
+  have hcore := (put_core st d inv k v lvl _ rfl).1
+  rw [specPut_eq_map_setVal st inv.2 hm v] at hcore
+  suffices h : (put gt d k v false lvl).1.curs = d.curs ∧
+      (put gt d k v false lvl).1.nodes.map (·.recs.length) = d.nodes.map (·.recs.length) from
+    ⟨h.1, fun p hp => map_rel h.2 hcore p hp⟩
+  cases hr : routeIdx gt k d.nodes with
+  | zero =>
+    exfalso
+    have := routeIdx_zero st inv hr _ hm
+    rw [st.irrefl] at this; cases this
+  | succ r =>
+    obtain ⟨pre, lower, post, e, hl, hg, hc⟩ := lower_split st inv hr
+    rcases hc with ⟨h2, hp, _⟩ | ⟨av', rest, h2, h3, hp⟩
+    · exfalso
+      rw [e, flatten_split pre post lower (findPos gt k lower.recs)] at hm
+      rcases List.mem_append.1 hm with h | h
+      · exact st.ne_of_gt (hg _ h) rfl
+      · exact st.ne_of_gt (h2 _ h) rfl
+    · obtain ⟨nodes, curs⟩ := d
+      simp only at e hr
+      subst e
+      simp only [put, hr, Nat.add_one_ne_zero, if_false, Nat.add_sub_cancel, getElem?_mid hl, take_mid hl,
+        drop_mid hl, hp, if_true, Bool.false_eq_true]
+      simp
+
+/-- `iwkv_cursor_set`: no cursor moves, only the value under the writing cursor changes -/
+theorem curSet_cursors [DecidableEq K] (st : StrictTotal gt) (d : Db K V) (inv : NodeInv gt d.nodes) (p0 : CPos) (v : V)
+    {k : K} {ov : V} (h : curRec d p0 = some (k, ov)) :
+    (curSet d p0 v).curs = d.curs ∧
+    ∀ p, CurOk d.nodes p → CurOk (curSet d p0 v).nodes p ∧
+      aheadN (curSet d p0 v).nodes p = (aheadN d.nodes p).map (setVal k v) ∧
+      aheadP (curSet d p0 v).nodes p = (aheadP d.nodes p).map (setVal k v) := by
+  have hcore := (curSet_core st d inv p0 v h).1
+  obtain ⟨i, j, s, pre, lower, post, t, u, rfl, e, hl, e2, hl2⟩ := curRec_split h
+  have hm : (k, ov) ∈ flatten d.nodes := by
+    rw [e, flatten_append, flatten_cons, e2]; simp
+  rw [specPut_eq_map_setVal st inv.2 hm v] at hcore
+  suffices h : (curSet d (.at i j s) v).curs = d.curs ∧
+      (curSet d (.at i j s) v).nodes.map (·.recs.length) = d.nodes.map (·.recs.length) from
+    ⟨h.1, fun p hp => map_rel h.2 hcore p hp⟩
+  have hr : lower.recs[j]? = some (k, ov) := by rw [e2]; exact getElem?_mid hl2
+  obtain ⟨nodes, curs⟩ := d
+  simp only at e
+  subst e
+  simp only [curSet, getElem?_mid hl, hr, set_mid hl]
+  simp
+
 end
 end IwModel.Kv
